@@ -3,6 +3,7 @@
 // evaluator or lands in a result tensor names the parent element it was read from.
 #include <Fastor/Fastor.h>
 #include "simd_sym.h"
+#include "sym16.h"
 #include "hutil.h"
 #include "tensor_arena.h"
 #include "views_common.h"
@@ -331,6 +332,14 @@ struct IseqRunner<T, Dims<D...>, Iseqs...> {
     static constexpr size_t RK = sizeof...(D);
     using PT = Fastor::Tensor<T, D...>;
     using RT = Fastor::Tensor<T, (size_t)Fastor::range_detector<(int)Iseqs::_first, (int)Iseqs::_last, (int)Iseqs::_step>::value...>;
+    // the rank-3 overload also exists for const tensors
+    template<size_t R, typename std::enable_if<R == 3, bool>::type = 0>
+    static void iseq_const_check(const PT& a, const std::vector<uint32_t>& expect, Fail& fail) {
+        RT r(a(Iseqs()...));
+        for (size_t p = 0; p < expect.size(); ++p) VW_CHECK(r.data()[p].h == expect[p], "const iseq result[%zu]", p);
+    }
+    template<size_t R, typename std::enable_if<R != 3, bool>::type = 0>
+    static void iseq_const_check(const PT&, const std::vector<uint32_t>&, Fail&) {}
     static void run() {
         const std::array<int,RK> kinds{}, pd = {(int)D...};
         const std::array<int,RK> F = {(int)Iseqs::_first...}, L = {(int)Iseqs::_last...}, S = {(int)Iseqs::_step...};
@@ -348,11 +357,8 @@ struct IseqRunner<T, Dims<D...>, Iseqs...> {
             VW_CHECK(want_n == n, "result has %ld elements want %ld", n, want_n);
             if (want_n == n) {
                 for (long p = 0; p < n; ++p) expect[p] = A->data()[ref_offset<RK>(pd, e, unrowmajor<RK>(rd, p))].h;
-                // the rank-3 overload is the only const one, and on a non-const tensor the variadic seq overload wins
-                // (and does not compile): rank 3 is indexed through a const reference
-                using PRef = typename std::conditional<RK == 3, const PT, PT>::type;
-                PRef& a = *A;
-                consume<RT>("1", [&](void* slot) { return new (slot) RT(a(Iseqs()...)); }, expect, nullptr, fail, out);
+                consume<RT>("1", [&](void* slot) { return new (slot) RT((*A)(Iseqs()...)); }, expect, nullptr, fail, out);
+                iseq_const_check<RK>(*A, expect, fail);
             }
             std::printf(" | DM=%s%s OOB=0 ORACLE=%s", dims_str<RK>(rd).c_str(), out.c_str(), fail.what.empty() ? "ok" : "FAIL");
             if (!fail.what.empty()) std::printf(" bad=%s", fail.what.c_str());
